@@ -604,18 +604,30 @@ func (w *world) waitQuiet(idle, max time.Duration, stop <-chan struct{}) {
 
 var behaviours = []string{"ok", "kerr:1", "err", "pstr", "perr", "pkerr:12", "pint", "pstringer", "pnil", "sleep:3", "kerr:9", "pnilval"}
 
-func goodRequest(idx int, beh string) []byte { return paddedRequest(idx, beh, 0) }
+func goodRequest(idx int, beh string) []byte { return connRequest(0, idx, beh, 0) }
 
 // paddedRequest: the same request made `pad` bytes bigger.
-func paddedRequest(idx int, beh string, pad int) []byte {
-	if pad > 0 {
-		if !strings.Contains(beh, ":") {
-			beh += ":"
-		}
-		beh += ":" + strings.Repeat("x", pad)
+func paddedRequest(idx int, beh string, pad int) []byte { return connRequest(0, idx, beh, pad) }
+
+// requestUID: the UniqueIdentifier of the idx-th request of connection `conn` with handler behaviour `beh`
+// (`<behaviour>:<arg>:<filler>`): the filler names the connection and the request, and a successful
+// response echoes the whole string, so a response can be told to be the answer to THIS request.
+func requestUID(conn, idx int, beh string, pad int) string {
+	if conn == 0 && pad == 0 {
+		return beh
 	}
-	msg := kmip.NewRequestMessage(kmip.V1_4, &payloads.ActivateRequestPayload{UniqueIdentifier: beh})
-	msg.BatchItem[0].UniqueBatchItemID = binary.BigEndian.AppendUint32(nil, uint32(1000+idx))
+	if !strings.Contains(beh, ":") {
+		beh += ":"
+	}
+	return beh + ":" + fmt.Sprintf("c%d.%d.", conn, idx) + strings.Repeat("x", pad)
+}
+
+// connRequest: the idx-th request of connection `conn`. The UniqueBatchItemID carries the connection in
+// its upper half and 1000+idx in its lower half: requests of different connections of one server are
+// distinguishable, so a response delivered to the wrong connection is seen.
+func connRequest(conn, idx int, beh string, pad int) []byte {
+	msg := kmip.NewRequestMessage(kmip.V1_4, &payloads.ActivateRequestPayload{UniqueIdentifier: requestUID(conn, idx, beh, pad)})
+	msg.BatchItem[0].UniqueBatchItemID = binary.BigEndian.AppendUint32(nil, uint32(conn)<<16|uint32(1000+idx))
 	return ttlv.MarshalTTLV(&msg)
 }
 
@@ -638,7 +650,9 @@ func skipMessage() []byte {
 }
 
 type respObs struct {
-	ID      int // UniqueBatchItemID - 1000, -1 = absent
+	ID      int // lower half of the UniqueBatchItemID - 1000, -1 = absent
+	Conn    int // upper half of the UniqueBatchItemID: the connection the answered request was sent on
+	Echo    string // UniqueIdentifier of the response payload (a successful Activate echoes the request's)
 	Status  uint32
 	Reason  uint32
 	Items   int
@@ -650,7 +664,11 @@ func observeResponse(m *kmip.ResponseMessage) respObs {
 	if len(m.BatchItem) > 0 {
 		bi := m.BatchItem[0]
 		if len(bi.UniqueBatchItemID) == 4 {
-			o.ID = int(binary.BigEndian.Uint32(bi.UniqueBatchItemID)) - 1000
+			v := binary.BigEndian.Uint32(bi.UniqueBatchItemID)
+			o.ID, o.Conn = int(v&0xFFFF)-1000, int(v>>16)
+		}
+		if pl, ok := bi.ResponsePayload.(*payloads.ActivateResponsePayload); ok && pl != nil {
+			o.Echo = pl.UniqueIdentifier
 		}
 		o.Status, o.Reason = uint32(bi.ResultStatus), uint32(bi.ResultReason)
 		o.Invalid = len(bi.UniqueBatchItemID) == 0 && bi.ResultStatus == kmip.ResultStatusOperationFailed &&
@@ -800,6 +818,8 @@ func parseConnScenText(t string) (*connScen, error) {
 }
 
 type connObs struct {
+	ConnID     int      // the connection's number (upper half of the ids of its requests)
+	SentUID    []string // UniqueIdentifier of the k-th decodable request
 	Resps      []respObs
 	Ended      string
 	Connect    int
@@ -858,7 +878,14 @@ func runConnScenario(ts *testServer, id int, sc *connScen) (*connObs, error) {
 	if err != nil {
 		return nil, err
 	}
-	obs := &connObs{}
+	obs := &connObs{ConnID: id}
+	for g := 0; g < strings.Count(sc.Msgs, "g"); g++ {
+		pad := 0
+		if sc.Pad > 0 {
+			pad = sc.Pad + 37*g
+		}
+		obs.SentUID = append(obs.SentUID, requestUID(id, g, sc.behaviourOf(g), pad))
+	}
 	var mu sync.Mutex
 	sentAll := make(chan struct{})
 	gotK := make(chan struct{}, 64)
@@ -902,7 +929,7 @@ func runConnScenario(ts *testServer, id int, sc *connScen) (*connObs, error) {
 				if sc.Pad > 0 {
 					pad = sc.Pad + 37*good
 				}
-				b = paddedRequest(good, sc.behaviourOf(good), pad)
+				b = connRequest(id, good, sc.behaviourOf(good), pad)
 				good++
 			case 'b':
 				b = badRequest(sc.BadV + i)
@@ -1083,9 +1110,14 @@ func c08Oracle(sc *connScen, o *connObs) []violOut {
 			}
 			continue
 		}
-		if r.ID != good {
+		if r.Conn != o.ConnID {
+			add("order", "response-of-another-connection", fmt.Sprintf("response %d answers request %d of connection %d: it was received on connection %d", i, r.ID, r.Conn, o.ConnID))
+		} else if r.ID != good {
 			add("order", "response-order", fmt.Sprintf("response %d answers request %d (expected %d)", i, r.ID, good))
 		} else {
+			if r.Status == uint32(kmip.ResultStatusSuccess) && good < len(o.SentUID) && r.Echo != o.SentUID[good] {
+				add("handler-outcome", "payload-not-of-request", fmt.Sprintf("the successful response to request %d carries the payload of another request (%.40q, sent %.40q)", good, r.Echo, o.SentUID[good]))
+			}
 			// (which Result Reason a failure is reported with is C09's business, not checked here)
 			if failed := expectedFailed(sc.behaviourOf(good)); (r.Status != uint32(kmip.ResultStatusSuccess)) != failed {
 				add("handler-outcome", "status-not-outcome", fmt.Sprintf("request %d (%s) answered with status %d", good, sc.behaviourOf(good), r.Status))
@@ -1753,6 +1785,10 @@ func runLtsSrv(ctx *Ctx) {
 			for _, b := range isoBlocks {
 				extra = append(extra, &ltsJob{Sys: "iso", Iso: &isoScen{Block: b, N: 2 + rep}})
 			}
+			// (what connections share per processor is shared only when they happen to meet on one: repeated)
+			for q := 0; q < 5; q++ {
+				extra = append(extra, &ltsJob{Sys: "iso", Iso: &isoScen{Block: "noread", N: 2 + (rep+q)%3}})
+			}
 			extra = append(extra, &ltsJob{Sys: "iso", Iso: &isoScen{Block: "handler", N: 2, TLS: true}},
 				&ltsJob{Sys: "iso", Iso: &isoScen{Block: "hook", N: 2, TLS: true}})
 			for v := 0; v < 2; v++ {
@@ -1865,7 +1901,7 @@ func runLtsSrv(ctx *Ctx) {
 				ctx.Res.Fail("the director never held a goroutine at " + pt + ": the directed schedules were not explored")
 			}
 		}
-		for _, k := range []string{"iso.neighbour-served", "iso.live-profile-ok", "tls.neighbour-served"} {
+		for _, k := range []string{"iso.neighbour-served", "iso.live-profile-ok", "iso.blocked-answered", "tls.neighbour-served"} {
 			if ctx.Res.Distribution[k] == 0 {
 				ctx.Res.Fail("coverage floor: " + k + " = 0")
 			}
@@ -2107,7 +2143,7 @@ func runSrvJob(job *ltsJob) *ltsRes {
 			if len(cl.behs) > 0 {
 				go func() {
 					for k, beh := range cl.behs {
-						if _, err := c.Write(goodRequest(k, beh)); err != nil {
+						if _, err := c.Write(connRequest(i+1, k, beh, 0)); err != nil {
 							return
 						}
 						cl.mu.Lock()
@@ -2328,8 +2364,9 @@ func runSrvJob(job *ltsJob) *ltsRes {
 				add("answers", "response-without-request", fmt.Sprintf("connection %d: %d responses for %d requests", i+1, len(resps), len(cl.behs)))
 				break
 			}
-			if ro.ID != k || ro.Items != 1 || (ro.Status != uint32(kmip.ResultStatusSuccess)) != expectedFailed(cl.behs[k]) {
-				add("answers", "wrong-response", fmt.Sprintf("connection %d: response %d answers request %d with status %d (%d items), handler outcome %s", i+1, k, ro.ID, ro.Status, ro.Items, cl.behs[k]))
+			if ro.ID != k || ro.Conn != i+1 || ro.Items != 1 || (ro.Status != uint32(kmip.ResultStatusSuccess)) != expectedFailed(cl.behs[k]) ||
+				(ro.Status == uint32(kmip.ResultStatusSuccess) && ro.Echo != requestUID(i+1, k, cl.behs[k], 0)) {
+				add("answers", "wrong-response", fmt.Sprintf("connection %d: response %d answers request %d of connection %d with status %d (%d items, payload %.40q), handler outcome %s", i+1, k, ro.ID, ro.Conn, ro.Status, ro.Items, ro.Echo, cl.behs[k]))
 			}
 		}
 		patient := (sc.Kind == "r" || sc.Kind == "p") && !closedS
